@@ -1007,7 +1007,7 @@ impl TypeChecker {
                 no_ret(f_ty)
             }
 
-            E::Blob { blob, fields, span, .. } => {
+            E::Blob { blob, fields, span, self_var } => {
                 let blob_ty = self.copy(self.variables[*blob].ty);
                 let (blob_name, blob_fields, blob_args) = match self.find_type(blob_ty) {
                     Type::Blob(name, _, fields, args) => (name, fields, args),
@@ -1076,6 +1076,10 @@ impl TypeChecker {
                     fields_and_types.clone(),
                     blob_args.clone(),
                 ));
+
+                // `self` in the fields is the blob being instantiated
+                let self_ty = self.variables[*self_var].ty;
+                self.unify(*span, ctx, self_ty, given_blob)?;
 
                 // Unify the fields with their real types
                 let ret = Some(self.push_type(Type::Unknown));
